@@ -268,7 +268,12 @@ class Run:
         path, n = self.emit(name, ["emit"] + emit_args)
         r = self.tlc(name, spec, cfg, env={"TRACE": path}, workers=workers, timeout=timeout)
         bad = sorted({int(v["states"][-1][idx_var]) for v in r.violations
-                      if v["states"] and idx_var in v["states"][-1]})
+                      if v["states"] and idx_var in v["states"][-1] and v["inv"] != "TableConf"})
+        soft = sorted({int(v["states"][-1][idx_var]) for v in r.violations
+                       if v["states"] and idx_var in v["states"][-1] and v["inv"] == "TableConf"})
+        for b in soft[:5]:
+            self.drift.append("leg %s record %d: result differs from the specification's rule although the "
+                              "property's own predicate holds" % (name, b))
         recs = read_records(path, bad[:50] + [1, max(1, n // 2), n])
         for b in bad[:50]:
             self.violations.append({
@@ -508,6 +513,38 @@ def c07(run):
              "at origins x0000, x3000, xFDFF; one record per word; MC_Isa proves StmtWord(Disasm(w)) = w in the spec",
         level_note="exhaustive over all words in both tiers; origins sampled at 3 addresses (encoding is "
                    "address-independent for label-free statements)")
+
+
+@check("C15")
+def c15(run):
+    run.mc_leg("mc_wordinit3", "MC_WordInit", "MC_WordInit3.cfg", workers=8)
+    run.mc_leg("mc_wordinit4", "MC_WordInit", "MC_WordInit4.cfg", workers=16)
+    run.table_leg("wordop", ["wordop"], cfg="TV_TablesConf.cfg", workers=8)
+    return run.finish(
+        rule="MC: all operand pairs with all masks and all completions at widths 3 and 4 (soundness of every result bit "
+             "reported initialized; fully initialized operands give the wrapping value fully initialized).  TV at 16 "
+             "bits on the real Word operators through the mask hooks: structured pairs with <= 8 unknown bits for which "
+             "TLC enumerates every completion (exact decision), random pairs with arbitrary masks whose unknown bits "
+             "are re-drawn 64 times through the real operators (witnesses), fully initialized pairs",
+        level_note="verdict by witness at 16 bits; equality of the mask with the specification's propagation rule is drift only")
+
+
+@check("C34")
+def c34(run):
+    run.mc_leg("mc_timer", "MC_Timer", "MC_Timer.cfg", workers=4)
+    r, path, n, rej = run.trace_leg("timer", ["timer"], spec="TV_Timer", cfg="TV_Timer.cfg",
+                                    verdict=["fired-while-disabled", "gap-out-of-range", "gap-too-long", "first-too-late",
+                                             "panic", "unknown-event"])
+    run.trace_leg("timer_seed", ["timer"], spec="TV_Pairs", cfg="TV_Pairs.cfg", verdict=PAIRV, expect_all=False, path=path)
+    run.trace_leg("in_sim", ["machine", "kind=int", "timers=1"], verdict=["intgate", "draw", "timers", "panic"])
+    return run.finish(
+        rule="MC: the timer design for all ranges within 1..4, all draws and all interleavings of poll/enable/disable/"
+             "reset against the observer automaton TimerProp.  TV: real TimerDevice polled directly (random exact counts "
+             "and ranges, seeds, toggles, io_reset, range changes), TimerProp evaluated on the logged fire sequence; every "
+             "configuration is run twice with the same seed and the two sequences must be identical; inside the simulator "
+             "each timer interrupt entry is validated (IntGate, draws in range)",
+        level_note="ranges containing 0 are outside the claim (exact case is stated for n >= 1); get_remaining() binds "
+                   "draws only in the conformance names time/draw/irq (drift)")
 
 
 @check("C35")
